@@ -354,3 +354,100 @@ proof fn lemma_constants_defining_equations()
     assert(val4(ROOT_OF_UNITY_INV.0) < q() && (iota(ROOT_OF_UNITY_INV) * iota(ROOT_OF_UNITY)) % q() == 1) by (compute_only);
     assert(val4(DELTA.0) < q() && iota(DELTA) == modpow(iota(GENERATOR), p2(S as nat) as nat, q())) by (compute_only);
 }
+
+// ---------------- Fr::square: cross products, doubling by shifts, diagonal ----------------
+
+proof fn lemma_shl1(x: u64)
+    ensures (x << 1) as int + 0x1_0000_0000_0000_0000int * ((x >> 63) as int) == 2 * (x as int),
+{
+    assert((x << 1) as int + 0x1_0000_0000_0000_0000int * ((x >> 63) as int) == 2 * (x as int)) by (bit_vector);
+}
+
+proof fn lemma_shl1_or(x: u64, y: u64)
+    ensures ((x << 1) | (y >> 63)) as int == (x << 1) as int + (y >> 63) as int,
+{
+    assert(((x << 1) | (y >> 63)) as int == (x << 1) as int + (y >> 63) as int) by (bit_vector);
+}
+
+/// the six cross-product macs: X = s1 + P s2 + P^2 t3 + P^3 t4 + P^4 t5 + P^5 s6
+proof fn lemma_sq_cross(a0: u64, a1: u64, a2: u64, a3: u64,
+    s1: int, c0: int, s2: int, c1: int, s3: int, s4: int, t3: int, c3: int, t4: int, s5: int, t5: int, s6: int)
+    requires
+        s1 + 0x1_0000_0000_0000_0000int * c0 == mulu(a0, a1),
+        s2 + 0x1_0000_0000_0000_0000int * c1 == mulu(a0, a2) + c0,
+        s3 + 0x1_0000_0000_0000_0000int * s4 == mulu(a0, a3) + c1,
+        t3 + 0x1_0000_0000_0000_0000int * c3 == s3 + mulu(a1, a2),
+        t4 + 0x1_0000_0000_0000_0000int * s5 == s4 + mulu(a1, a3) + c3,
+        t5 + 0x1_0000_0000_0000_0000int * s6 == s5 + mulu(a2, a3),
+    ensures
+        s1 + 0x1_0000_0000_0000_0000int * (s2 + 0x1_0000_0000_0000_0000int * (t3 + 0x1_0000_0000_0000_0000int * (t4 + 0x1_0000_0000_0000_0000int * (t5 + 0x1_0000_0000_0000_0000int * s6))))
+          == mulu(a0, a1) + 0x1_0000_0000_0000_0000int * (mulu(a0, a2) + 0x1_0000_0000_0000_0000int * (mulu(a0, a3) + mulu(a1, a2)
+             + 0x1_0000_0000_0000_0000int * (mulu(a1, a3) + 0x1_0000_0000_0000_0000int * mulu(a2, a3)))),
+{
+}
+
+/// the shift/or block doubles the 6-limb cross value into 7 limbs
+proof fn lemma_sq_double(s1: u64, s2: u64, t3: u64, t4: u64, t5: u64, s6: u64,
+    n1: u64, n2: u64, n3: u64, n4: u64, n5: u64, n6: u64, n7: u64)
+    requires
+        n7 == s6 >> 63, n6 == (s6 << 1) | (t5 >> 63), n5 == (t5 << 1) | (t4 >> 63), n4 == (t4 << 1) | (t3 >> 63),
+        n3 == (t3 << 1) | (s2 >> 63), n2 == (s2 << 1) | (s1 >> 63), n1 == s1 << 1,
+    ensures
+        n1 as int + 0x1_0000_0000_0000_0000int * (n2 as int + 0x1_0000_0000_0000_0000int * (n3 as int + 0x1_0000_0000_0000_0000int * (n4 as int
+          + 0x1_0000_0000_0000_0000int * (n5 as int + 0x1_0000_0000_0000_0000int * (n6 as int + 0x1_0000_0000_0000_0000int * (n7 as int))))))
+        == 2 * (s1 as int + 0x1_0000_0000_0000_0000int * (s2 as int + 0x1_0000_0000_0000_0000int * (t3 as int + 0x1_0000_0000_0000_0000int * (t4 as int
+          + 0x1_0000_0000_0000_0000int * (t5 as int + 0x1_0000_0000_0000_0000int * (s6 as int)))))),
+{
+    lemma_shl1(s1); lemma_shl1(s2); lemma_shl1(t3); lemma_shl1(t4); lemma_shl1(t5); lemma_shl1(s6);
+    lemma_shl1_or(s6, t5); lemma_shl1_or(t5, t4); lemma_shl1_or(t4, t3); lemma_shl1_or(t3, s2); lemma_shl1_or(s2, s1);
+}
+
+/// the diagonal pass: add a_i^2 at even limb positions
+proof fn lemma_sq_diag(a0: u64, a1: u64, a2: u64, a3: u64,
+    n1: int, n2: int, n3: int, n4: int, n5: int, n6: int, n7: int,
+    z0: int, d0: int, z1: int, d1: int, z2: int, d2: int, z3: int, d3: int, z4: int, d4: int, z5: int, d5: int, z6: int, d6: int, z7: int, d7: int)
+    requires
+        z0 + 0x1_0000_0000_0000_0000int * d0 == mulu(a0, a0),
+        z1 + 0x1_0000_0000_0000_0000int * d1 == n1 + d0,
+        z2 + 0x1_0000_0000_0000_0000int * d2 == n2 + mulu(a1, a1) + d1,
+        z3 + 0x1_0000_0000_0000_0000int * d3 == n3 + d2,
+        z4 + 0x1_0000_0000_0000_0000int * d4 == n4 + mulu(a2, a2) + d3,
+        z5 + 0x1_0000_0000_0000_0000int * d5 == n5 + d4,
+        z6 + 0x1_0000_0000_0000_0000int * d6 == n6 + mulu(a3, a3) + d5,
+        z7 + 0x1_0000_0000_0000_0000int * d7 == n7 + d6,
+    ensures
+        ival8(z0, z1, z2, z3, z4, z5, z6, z7) + r256() * r256() * d7
+          == mulu(a0, a0) + 0x1_0000_0000_0000_0000int * (n1 + 0x1_0000_0000_0000_0000int * (n2 + mulu(a1, a1) + 0x1_0000_0000_0000_0000int * (n3
+             + 0x1_0000_0000_0000_0000int * (n4 + mulu(a2, a2) + 0x1_0000_0000_0000_0000int * (n5 + 0x1_0000_0000_0000_0000int * (n6 + mulu(a3, a3) + 0x1_0000_0000_0000_0000int * n7)))))),
+{
+    let p = 0x1_0000_0000_0000_0000int;
+    assert(r256() * r256() * d7 == p * (p * (p * (p * (p * (p * (p * (p * d7)))))))) by (nonlinear_arith)
+        requires r256() == p * p * p * p;
+}
+
+/// (a0 + P a1 + P^2 a2 + P^3 a3)^2 expanded into the ten limb products
+proof fn lemma_sq_expand(a0: u64, a1: u64, a2: u64, a3: u64)
+    ensures
+        val4([a0, a1, a2, a3]) * val4([a0, a1, a2, a3])
+          == mulu(a0, a0) + 0x1_0000_0000_0000_0000int * (2 * mulu(a0, a1) + 0x1_0000_0000_0000_0000int * (2 * mulu(a0, a2) + mulu(a1, a1)
+             + 0x1_0000_0000_0000_0000int * (2 * (mulu(a0, a3) + mulu(a1, a2)) + 0x1_0000_0000_0000_0000int * (2 * mulu(a1, a3) + mulu(a2, a2)
+             + 0x1_0000_0000_0000_0000int * (2 * mulu(a2, a3) + 0x1_0000_0000_0000_0000int * mulu(a3, a3)))))),
+{
+    reveal(mulu);
+    let p = 0x1_0000_0000_0000_0000int;
+    let (x0, x1, x2, x3) = (a0 as int, a1 as int, a2 as int, a3 as int);
+    assert(val4([a0, a1, a2, a3]) == x0 + p * (x1 + p * (x2 + p * x3)));
+    assert((x0 + p * (x1 + p * (x2 + p * x3))) * (x0 + p * (x1 + p * (x2 + p * x3)))
+        == x0 * x0 + p * (2 * (x0 * x1) + p * (2 * (x0 * x2) + x1 * x1 + p * (2 * (x0 * x3 + x1 * x2) + p * (2 * (x1 * x3) + x2 * x2
+           + p * (2 * (x2 * x3) + p * (x3 * x3))))))) by (nonlinear_arith)
+        requires p == 0x1_0000_0000_0000_0000int;
+}
+
+proof fn lemma_sq_no_carry(t: int, v: int, d7: int)
+    requires t + r256() * r256() * d7 == v, 0 <= t, 0 <= d7, 0 <= v < r256() * r256(),
+    ensures d7 == 0,
+{
+    if d7 >= 1 {
+        assert(r256() * r256() * d7 >= r256() * r256()) by (nonlinear_arith) requires d7 >= 1, r256() * r256() > 0;
+    }
+}
